@@ -396,14 +396,22 @@ impl Job {
         let mut result = ExecutionResult::success();
 
         while let Some(task) = self.tasks.back_mut() {
-            match task.wait().await? {
-                JobTaskWaitResult::Completed(execution_result) => {
+            match task.wait().await {
+                Ok(JobTaskWaitResult::Completed(execution_result)) => {
                     result = execution_result;
                     self.tasks.pop_back();
                 }
-                JobTaskWaitResult::Stopped => {
+                Ok(JobTaskWaitResult::Stopped) => {
                     self.state = JobState::Stopped;
                     return Ok(ExecutionResult::stopped());
+                }
+                Err(e) => {
+                    // An internal task that ended with an error has been consumed by the
+                    // wait; it must not be awaited again.
+                    if matches!(task, JobTask::Internal(_)) {
+                        self.tasks.pop_back();
+                    }
+                    return Err(e);
                 }
             }
         }
